@@ -6,7 +6,7 @@ import itertools
 
 from .. import automata as A
 from .. import blocks, e1, impl, refmodel
-from ..chartgen import FORMAT_TRAPS, UNICODE_TRAPS, mk
+from ..chartgen import FORMAT_TRAPS, RAW, UNICODE_TRAPS, mk
 from ..linelang import BL
 
 ID = "C10"
@@ -278,6 +278,12 @@ def _adversarial(ctx):
     # the first line of a field wins, whatever follows
     for f in ("Name", "Offset", "Charter"):
         check_song(ctx, ["Resolution = 192", canon(f, 1), canon(f, 2)], "field %s given twice" % f)
+    # indentation differs from line to line (no line's indentation says anything about another line's)
+    three = ["Resolution = 192", 'Name = "Artist = "y""', "Difficulty = 4", "Player2 = rhythm"]
+    for ind in itertools.product(("", " ", "  ", "    ", "\t", "          "), repeat=3):
+        song = [RAW + ind[0] + three[0], RAW + ind[1] + three[1], RAW + ind[2] + three[2], RAW + ind[(len(ind[0]) + len(ind[1])) % 3] + three[3]]
+        check_song(ctx, song, "indentation %r" % (ind,))
+        check_song(ctx, song[::-1], "indentation %r" % (ind[::-1],))
     # field names are case-sensitive: a line whose name differs in letter case is not that field's line
     for f in ALL_FIELDS:
         for nm in (f.lower(), f.upper(), f.swapcase()):
